@@ -178,6 +178,12 @@ func (nw *verifNet) checkBlocks() {
 	for i, a := range nw.nodes {
 		ab := a.proxy.commits
 		for k, b := range ab {
+			// what the node reports later for a delivered block (Node.GetBlock, as the
+			// HTTP service does): the delivered body plus the application's answer
+			sb, gerr := a.n.GetBlock(b.Index())
+			verifAssert("node-reports-the-delivered-body-plus-the-application-answer", gerr == nil && sb != nil && sb.Index() == b.Index() && sb.RoundReceived() == b.RoundReceived() && sb.Timestamp() == b.Timestamp() &&
+				string(sb.FrameHash()) == string(b.FrameHash()) && string(sb.PeersHash()) == string(b.PeersHash()) && len(sb.Transactions()) == len(b.Transactions()) &&
+				len(sb.StateHash()) == 1 && int(sb.StateHash()[0]) == k+1)
 			verifAssert("node-level-block-indexes-consecutive-from-zero", b.Index() == k)
 			if k > 0 {
 				verifAssert("node-level-round-received-strictly-increasing", b.RoundReceived() > ab[k-1].RoundReceived())
@@ -371,8 +377,48 @@ func verifNetRunHostile(steps, window, fair int, syncLimit int, suspendAt int, b
 	if total >= 3 {
 		verifReach("node-level-blocks-were-delivered")
 	}
+	nw.checkSignatures()
 	verifObserve("blocksNode0", len(nw.nodes[0].proxy.commits))
 	return nw
+}
+
+// checkSignatures (C09 at node level): on every node, every signature recorded
+// on a stored block is by a member of the block's round's validator set and
+// verifies against the node's own body of that block (which carries the
+// application's answer); the node's own signature is only on blocks it
+// delivered; an anchor carries valid signatures of more than a third of its
+// round's validators.
+func (nw *verifNet) checkSignatures() {
+	for _, vn := range nw.nodes {
+		h := vn.n.core.hg
+		last := vn.store.LastBlockIndex()
+		for bi := 0; bi <= last; bi++ {
+			sb, err := vn.store.GetBlock(bi)
+			if err != nil {
+				continue
+			}
+			ps, err := vn.store.GetPeerSet(sb.RoundReceived())
+			if err != nil {
+				panic(err)
+			}
+			valid := 0
+			for _, sig := range sb.GetSignatures() {
+				_, member := ps.ByPubKey[sig.ValidatorHex()]
+				verifAssert("node-level-recorded-signature-is-by-a-member-of-the-blocks-round", member)
+				ok, verr := sb.Verify(sig)
+				verifAssert("node-level-recorded-signature-verifies-against-own-body", verr == nil && ok)
+				if member && ok {
+					valid++
+				}
+			}
+			if _, err := sb.GetSignature(vn.n.core.validator.PublicKeyHex()); err == nil {
+				verifAssert("node-level-own-signature-only-on-delivered-blocks", bi < len(vn.proxy.commits))
+			}
+			if a := h.AnchorBlock; a != nil && *a == bi {
+				verifAssert("node-level-anchor-has-valid-signatures-of-more-than-a-third", valid > ps.TrustCount() || (len(ps.Peers) == 1 && valid >= 1))
+			}
+		}
+	}
 }
 
 // C17/O4 — a node suspended at run time (real Suspend()) amid real node-level
@@ -443,3 +489,8 @@ func VerifHarness_C08_O7() {
 	_ = nw
 	verifReach("end")
 }
+
+// C02/O7, C09/O9 — the node-level bounded run, for its finality clauses (what
+// Node.GetBlock reports for a delivered block) and its block-signature clauses.
+func VerifHarness_C02_O7() { VerifHarness_C01_O10() }
+func VerifHarness_C09_O9() { VerifHarness_C01_O10() }
